@@ -331,20 +331,26 @@ impl<T> AtomicBucket<T> {
                 Ok(_) => return,
                 // The block was full, so we've been given the value back and we need to install a new block.
                 Err(value) => {
+                    // Link the new block to the previous block _before_ publishing it: a reader
+                    // or clearer that observes the new tail must always be able to reach the
+                    // blocks behind it, otherwise it would see (or detach) an empty bucket.
+                    let new_block = Owned::new(Block::new());
+                    new_block.next.store(tail, Ordering::Release);
+
                     match self.tail.compare_exchange(
                         tail,
-                        Owned::new(Block::new()),
+                        new_block,
                         Ordering::AcqRel,
                         Ordering::Acquire,
                         guard,
                     ) {
-                        // We managed to install the block, so we need to link this new block to
-                        // the nextious block.
+                        // We managed to install the block, which is already linked to the
+                        // previous block.
                         Ok(ptr) => {
                             let new_tail = unsafe { ptr.deref() };
-                            new_tail.next.store(tail, Ordering::Release);
 
                             // Now push into our new block.
+
                             match new_tail.push(value) {
                                 // We wrote the value successfully, so we're good here!
                                 Ok(_) => return,
